@@ -477,8 +477,17 @@ func c10R3StoragePush(c *Ctx, R3 string) {
 		for _, dv := range dsts {
 			hit := false
 			AllInstrs(push, func(in ssa.Instruction) {
-				if call, isCall := in.(*ssa.Call); isCall && len(call.Call.Args) == 1 && (exp.fieldOf(call.Call.Args[0], "Digest") || exp.vals[call.Call.Args[0]]) && c09Uses(dv, call, 0) {
-					hit = true
+				call, isCall := in.(*ssa.Call)
+				if !isCall || !c09Uses(dv, call, 0) {
+					return
+				}
+				if g := StaticCallee(call); g == nil || !inModule(g) {
+					return
+				}
+				for _, a := range call.Call.Args { // blobPath(expected.Digest), s.blobTarget(expected), …
+					if exp.fieldOf(a, "Digest") || exp.vals[a] {
+						hit = true
+					}
 				}
 			})
 			if !hit {
